@@ -155,6 +155,7 @@ impl Point {
     /// If the source length is exactly 32 bytes, then the decoding
     /// outcome (success or failure) should remain hidden from
     /// timing-based side channels.
+    #[cfg_attr(pornin_crrl_verif_cut, inline(never))]
     pub fn set_decode(&mut self, buf: &[u8]) -> u32 {
         // Check that the input length is correct.
         if buf.len() != 32 {
@@ -224,6 +225,7 @@ impl Point {
     /// Encodes this point into exactly 32 bytes.
     ///
     /// Encoding is always canonical.
+    #[cfg_attr(pornin_crrl_verif_cut, inline(never))]
     pub fn encode(self) -> [u8; 32] {
         // The neutral encodes to field element 0.
         // Other points encode to w = sqrt(s/x).
@@ -1533,6 +1535,7 @@ impl Point {
     ///
     /// This operation is constant-time with regard to both the points
     /// and the scalar value.
+    #[cfg_attr(pornin_crrl_verif_cut, inline(never))]
     pub fn set_mul(&mut self, n: &Scalar) {
         // This uses the GLS endomorphism along with a "normal" lookup
         // table, with two lookups and two additions after every sequence
@@ -2586,6 +2589,7 @@ impl Point {
     ///
     /// This operation is constant-time. It is faster than using the
     /// generic multiplication on `Self::BASE`.
+    #[cfg_attr(pornin_crrl_verif_cut, inline(never))]
     pub fn set_mulgen(&mut self, n: &Scalar) {
         // Split the scalar with the endomorphism.
         let (n0, s0, n1, s1) = Self::split_mu(n);
@@ -2651,6 +2655,7 @@ impl Point {
     ///
     /// THIS FUNCTION IS NOT CONSTANT-TIME; it shall be used only with
     /// public data.
+    #[cfg_attr(pornin_crrl_verif_cut, inline(never))]
     pub fn set_mul_add_mulgen_vartime(&mut self, u: &Scalar, v: &Scalar) {
         // Since there is an overhead to each sequence of successive
         // point doublings, it is advantageous to stick to long sequences.
@@ -2734,6 +2739,7 @@ impl Point {
     ///
     /// THIS FUNCTION IS NOT CONSTANT-TIME; it shall be used only with
     /// public data.
+    #[cfg_attr(pornin_crrl_verif_cut, inline(never))]
     pub fn set_mul64mu_add_mulgen_vartime(
         &mut self, u0: u64, u1: u64, v: &Scalar)
     {
@@ -3450,6 +3456,7 @@ impl PublicKey {
 /// are provided. Use an empty string for `hash_name` if the `data`
 /// is raw (unhashed). This function is used for both signature generation
 /// and signature verification.
+#[cfg_attr(pornin_crrl_verif_cut, inline(never))]
 fn make_challenge(R: &Point, enc_pk: &[u8; 32], hash_name: &str, data: &[u8])
     -> [u8; 16]
 {
